@@ -68,7 +68,59 @@ fn rss_bytes() -> u64 {
     s.split_whitespace().nth(1).and_then(|x| x.parse::<u64>().ok()).unwrap_or(0) * 4096
 }
 
+static CRASHED: std::sync::atomic::AtomicBool = std::sync::atomic::AtomicBool::new(false);
+static CRASH_SIG: std::sync::atomic::AtomicI32 = std::sync::atomic::AtomicI32::new(0);
+static CRASH_SLOT: std::sync::atomic::AtomicPtr<Slot> = std::sync::atomic::AtomicPtr::new(std::ptr::null_mut());
+
+/// fatal signal on a harness thread (abort after a stack overflow or allocation failure, SIGSEGV,
+/// SIGBUS, SIGILL, SIGFPE): remember which slot crashed, park the thread, let the watchdog thread
+/// report the verdict. Nothing here allocates or locks.
+extern "C" fn on_fatal(sig: libc::c_int) {
+    if !CRASHED.swap(true, Ordering::SeqCst) {
+        let p = MY.try_with(|m| m.try_borrow().ok().and_then(|b| b.as_ref().map(|a| Arc::as_ptr(a) as *mut Slot))).ok().flatten().unwrap_or(std::ptr::null_mut());
+        CRASH_SLOT.store(p, Ordering::SeqCst);
+        CRASH_SIG.store(sig, Ordering::SeqCst);
+    }
+    for _ in 0..600 {
+        unsafe { libc::usleep(100_000) };
+    }
+    unsafe { libc::_exit(3) };
+}
+
+fn install_fatal_handlers() {
+    unsafe {
+        for sig in [libc::SIGABRT, libc::SIGSEGV, libc::SIGBUS, libc::SIGILL, libc::SIGFPE] {
+            let mut sa: libc::sigaction = std::mem::zeroed();
+            sa.sa_sigaction = on_fatal as usize;
+            sa.sa_flags = libc::SA_ONSTACK;
+            libc::sigemptyset(&mut sa.sa_mask);
+            libc::sigaction(sig, &sa, std::ptr::null_mut());
+        }
+    }
+}
+
+/// `llgmc selftest-crash <abort|overflow>`: the watchdog's own test (a described job crashes)
+pub fn selftest_crash(kind: &str) {
+    let kind = kind.to_string();
+    let h = std::thread::Builder::new().stack_size(1 << 20).spawn(move || {
+        describe(json!({"selftest": "deliberate crash", "kind": kind}));
+        if kind == "overflow" {
+            #[inline(never)]
+            fn rec(n: u64) -> u64 {
+                let mut a = [n; 256];
+                std::hint::black_box(&mut a);
+                if std::hint::black_box(n) == u64::MAX { 0 } else { rec(n + 1).wrapping_add(a[(n % 256) as usize]) }
+            }
+            println!("{}", rec(0));
+        } else {
+            std::process::abort();
+        }
+    });
+    let _ = h.unwrap().join();
+}
+
 pub fn start(ctx: &'static Ctx) {
+    install_fatal_handlers();
     let cpu_limit_s: f64 = std::env::var("VERIF_WATCHDOG_CPU_S").ok().and_then(|s| s.parse().ok()).unwrap_or(ctx.tier.pick(120.0, 900.0));
     let mem_limit: u64 = std::env::var("VERIF_WATCHDOG_MEM_GB").ok().and_then(|s| s.parse::<u64>().ok()).unwrap_or(24) << 30;
     // backstop: an allocation beyond this aborts the process instead of taking the machine down
@@ -78,6 +130,28 @@ pub fn start(ctx: &'static Ctx) {
     }
     std::thread::spawn(move || loop {
         std::thread::sleep(std::time::Duration::from_millis(200));
+        if CRASHED.load(Ordering::SeqCst) {
+            std::thread::sleep(std::time::Duration::from_millis(50));
+            let p = CRASH_SLOT.load(Ordering::SeqCst);
+            let desc = if p.is_null() { Value::Null } else { unsafe { (*p).desc.try_lock().map(|d| d.clone()).unwrap_or(Value::Null) } };
+            let sig = CRASH_SIG.load(Ordering::SeqCst);
+            let name = match sig {
+                libc::SIGABRT => "SIGABRT (abort: stack overflow, allocation failure or an explicit abort)",
+                libc::SIGSEGV => "SIGSEGV",
+                libc::SIGBUS => "SIGBUS",
+                libc::SIGILL => "SIGILL",
+                libc::SIGFPE => "SIGFPE",
+                _ => "fatal signal",
+            };
+            ctx.violation(Violation {
+                check: "crash".into(),
+                class: "engine-crash".into(),
+                signature: format!("crash|{}|{}", sig, desc),
+                detail: json!({"kind": "crash", "job": desc, "signal": name, "note": "the process received a fatal signal on the thread working on this job; without this handler the check would have died with no verdict"}),
+            });
+            let code = ctx.finish(Coverage::StateGraph { rule: "run cut short by a fatal signal in the code under test; counters cover the part explored until then".into() });
+            std::process::exit(code);
+        }
         let slots: Vec<Arc<Slot>> = {
             // slots of threads that have exited (C14 spawns threads per schedule) are dropped
             let mut g = SLOTS.lock().unwrap();
